@@ -118,39 +118,9 @@ def state_values():
 
 COQ_HEADER = '''From Coq Require Import ZArith NArith List Bool.
 From SlskGen Require Import TransGen.
-From Slsk Require Import C03.Spec C03.Model.
+From Slsk Require Import C03.Spec C03.Model C03.Eval.
 Import ListNotations.
 Open Scope Z_scope.
-Definition zo (o : option N) : Z := match o with None => -1 | Some n => Z.of_N n end.
-Definition zb (b : bool) : Z := if b then 1 else 0.
-Definition zt (x : tstat) : Z := match x with TNone => 0 | TLive => 1 | TCancelling => 2 end.
-Definition enc_t (t : transfer) : list Z :=
-  [st_value (t_state t); zo (t_fail t); zo (t_abort t); zb (t_rq t); zo (t_place t); zo (t_filesize t); Z.of_N (t_bytes t);
-   Z.of_N (t_qatt t); Z.of_N (t_uatt t); zb (t_start t); zb (t_complete t); zb (t_local t); zb (t_file t);
-   zt (t_rqtask t); zt (t_trtask t)].
-Definition enc_edges (l : list edge) : list Z := flat_map (fun e => [st_value (fst e); st_value (snd e)]) l.
-Definition enc_obs (o : obs) : list Z :=
-  match o with OEdge a b => [0; st_value a; st_value b] | ORet i r => [1; Z.of_nat i; zb r] end.
-Fixpoint zeq (a b : list Z) : bool :=
-  match a, b with [], [] => true | x :: a', y :: b' => Z.eqb x y && zeq a' b' | _, _ => false end.
-Fixpoint zzeq (a b : list (list Z)) : bool :=
-  match a, b with [], [] => true | x :: a', y :: b' => zeq x y && zzeq a' b' | _, _ => false end.
-Fixpoint run_tr (b : bool) (m : mach) (es : list ev) : list (list Z) * mach :=
-  match es with
-  | [] => ([], m)
-  | e :: r => let '(m1, o) := step b m e in let '(l, m2) := run_tr b m1 r in (flat_map enc_obs o :: l, m2)
-  end.
-Definition mdone (m : mach) : bool :=
-  match m_holder m, m_waiters m, m_created m with None, [], [] => true | _, _, _ => false end.
-(* sequential case: every call's (ret :: edges), then the final record *)
-Definition seq_out (t : transfer) (cs : list call) : list (list Z) :=
-  let '(t', l) := run_seq t cs in map (fun x => zb (fst x) :: enc_edges (snd x)) l ++ [enc_t t'].
-(* concurrent case: per-event observations, then the final record (machine must be quiescent) *)
-Definition conc_out (t : transfer) (es : list ev) : list (list Z) :=
-  let '(l, m) := run_tr redispatch_after_lock (idle t) es in l ++ [enc_t (m_t m); [zb (mdone m)]].
-(* flattened variant for runs in which the hand-over of the lock is not controlled *)
-Definition conc_flat (t : transfer) (es : list ev) : list (list Z) :=
-  let '(l, m) := run_tr redispatch_after_lock (idle t) es in [concat l; enc_t (m_t m); [zb (mdone m)]].
 '''
 
 
@@ -518,3 +488,70 @@ def encode_obs(obs, rank) -> list:
             r = o[2]
             out += [1, rank[o[1]], 1 if r == ('ret', True) else (0 if r == ('ret', False) else 7)]
     return out
+
+
+# ---------------------------------------------------------------------------------------------
+# compact case files: model expression + fingerprint of the expected observation
+# ---------------------------------------------------------------------------------------------
+HP = 2305843009213693951
+
+
+def fingerprint(ll) -> int:
+    h = 1
+    for l in ll:
+        for x in l:
+            h = (h * 1000003 + x + 7) % HP
+        h = (h * 1000003 + 977 + 7) % HP
+    return h
+
+
+KIND = {'seq': 0, 'out': 1, 'flat': 2}
+
+
+def sched_number(events) -> int:
+    """events as ('C', j) | ('S', j) | ('T',) | ('W',); captures must be in index order (digit 1 = next call)"""
+    n, nxt = 0, 0
+    digits = []
+    rank = {}
+    for e in events:
+        if e[0] == 'C':
+            assert e[1] == nxt, 'captures must be in index order'
+            rank[e[1]] = nxt
+            nxt += 1
+            digits.append(1)
+        elif e[0] == 'S':
+            digits.append(2 + rank[e[1]])
+        elif e[0] == 'T':
+            digits.append(5)
+        else:
+            digits.append(6)
+    assert len(digits) <= 80
+    for d in reversed(digits):
+        n = n * 8 + d
+    return n
+
+
+def shard_text(header: str, rows) -> str:
+    """rows: (kind, transfer literal, [call literals], events, expected list of lists).  The file holds two tables
+    (transfers, call lists) and one line of five integers per case: elaborating constructor terms per case is what
+    makes coqc slow, not evaluating them."""
+    tidx, cidx = {}, {}
+    lines = []
+    for kind, tlit, clits, events, exp in rows:
+        ti = tidx.setdefault(tlit, len(tidx))
+        ci = cidx.setdefault('[' + '; '.join(clits) + ']', len(cidx))
+        lines.append(f'({KIND[kind]},{ti},{ci},{sched_number(events)},{fingerprint(exp)})')
+    out = [header]
+    for lit, i in tidx.items():
+        out.append(f'Definition t{i} : transfer := {lit}.\n')
+    for lit, i in cidx.items():
+        out.append(f'Definition l{i} : list call := {lit}.\n')
+    out.append('Definition ts : list transfer := [' + '; '.join(f't{i}' for i in range(len(tidx))) + '].\n')
+    out.append('Definition css : list (list call) := [' + '; '.join(f'l{i}' for i in range(len(cidx))) + '].\n')
+    chunks = [lines[i:i + 100] for i in range(0, len(lines), 100)]
+    for j, ch in enumerate(chunks):
+        out.append(f'Definition cs{j} : list (Z * Z * Z * Z * Z) := [\n' + ';\n'.join(ch) + '\n].\n')
+    out.append('Definition bad := bad_from ts css 0 (' + ' ++ '.join(f'cs{j}' for j in range(len(chunks))) + ').\n' if chunks
+               else 'Definition bad : list nat := [].\n')
+    out.append('Eval vm_compute in bad.\n')
+    return ''.join(out)
